@@ -327,7 +327,9 @@ func c04SlotTyping(c *core.Check, K map[int64]string, ivKeys map[int64]core.Tabl
 		vals = append(vals, v)
 	}
 	sort.Slice(vals, func(i, j int) bool { return vals[i] < vals[j] })
-	qual := func(t types.Type) string { return types.TypeString(t, func(pk *types.Package) string { return pk.Name() }) }
+	qual := func(t types.Type) string {
+		return types.TypeString(t, func(pk *types.Package) string { return pk.Name() })
+	}
 
 	// validators / validatorsError / computers by property
 	vtab, err1 := p.Table("css/validation", "validators")
